@@ -29,7 +29,8 @@ def verify(outdir, k, sid):
         if p.returncode != 0:
             print("PATCH DOES NOT APPLY:", p.stderr[-2000:]); return False
         sh("git reset -q", cwd=wt)
-        patch = sh("git diff", cwd=wt).stdout
+        sh("git diff --binary > /tmp/sv/patch.diff", cwd=wt)  # via the shell: the sources contain CRLF files
+        patch = open("/tmp/sv/patch.diff", "rb").read()
         if not patch.strip():
             print("empty patch"); return False
         if sh("go build ./...", cwd=wt).returncode != 0:
@@ -76,7 +77,7 @@ def verify(outdir, k, sid):
                 return False
         d = os.path.join(ROOT, "seeded", sid)
         os.makedirs(d, exist_ok=True)
-        open(os.path.join(d, "patch.diff"), "w").write(patch)
+        open(os.path.join(d, "patch.diff"), "wb").write(patch)
         for f in demos + glob.glob(os.path.join(outdir, f"demo{k}.*")):
             shutil.copy(f, os.path.join(d, os.path.basename(f).replace("_test.go", "_test.go.txt")))
         meta.update(dict(seed_id=sid, breaks=meta.get("property"), confirmed_by_me=dict(
@@ -110,10 +111,15 @@ def run(sid, props, tier):
             for l in lines[:6]:
                 print("   ", l[:400])
             res[pr] = r.returncode
+            first = next((l.strip() for l in lines if l.startswith("  ")), "")
+            cb = [c for c in meta.get("caught_by", []) if not (c["check"] == pr and c["tier"] == tier)]
+            cb.append(dict(check=pr, tier=tier, exit=r.returncode, caught=(r.returncode == 1), first_report=first[:300]))
+            meta["caught_by"] = cb
     finally:
         sh("git -C /repo checkout -- . && git -C /repo clean -fdq")
         # evidence files and replays written while the seed was applied are not evidence of the real tree
         sh("git checkout -- evidence 2>/dev/null; git clean -fdq replays evidence", cwd=ROOT)
+    json.dump(meta, open(os.path.join(d, "meta.json"), "w"), indent=1)
     return res
 
 if __name__ == "__main__":
